@@ -602,7 +602,8 @@ class MetadataManager:
             return None
         if not text:
             return None
-        if text.isdigit():
+        if text.isascii() and text.isdigit():
+            # (isascii: str.isdigit() accepts characters such as '\u00b2' that int() rejects)
             # Legacy format: plain version number -> legacy filename
             return int(text), f"v{text}.metadata.json"
         m = _METADATA_FILE_RE.match(text)
